@@ -14,7 +14,7 @@ import (
 func init() {
 	Register(&Property{
 		ID:    "C25",
-		Floor: 40,
+		Floor: 37,
 		Clauses: "receive path: in Conn.handleLongHeader and Conn.handle1RTT acks.shouldProcess(num)==true on the same ackState and packet number dominates handleFrames and acks.receive, every handleFrames is followed by acks.receive, and these are their only callers; " +
 			"shouldProcess returns true only under seen.min()<=num and !seen.contains(num). " +
 			"ackState.seen is mutated only by receive (add(num,num+1), then removeranges(0,n) under numRanges>8) and handleAck (sub(0, rangeContaining(largest).start)), i.e. only prefixes are dropped; handleAck is reached only for an acknowledged ACK frame with the recorded largest. " +
@@ -25,7 +25,7 @@ func init() {
 	})
 }
 
-const pnT = "[golang.org/x/net/quic.packetNumber]"
+const qaPnT = "[golang.org/x/net/quic.packetNumber]"
 
 func c25(c *Ctx) {
 	const A = "(*quic.ackState)."
@@ -35,14 +35,14 @@ func c25(c *Ctx) {
 
 	// ---- shouldProcess dominates processing
 	for _, fn := range []string{"(*quic.Conn).handleLongHeader", "(*quic.Conn).handle1RTT"} {
-		c25guard(c, fn, sp, hf, recv)
+		qaC25guard(c, fn, sp, hf, recv)
 		c.CallAfter(fn, Calls(hf), recv)
 		c.Count(fn, Calls(sp), 1, 1)
 	}
 	c.Callers(hf, "(*quic.Conn).handleLongHeader", "(*quic.Conn).handle1RTT")
 	c.Callers(recv, "(*quic.Conn).handleLongHeader", "(*quic.Conn).handle1RTT")
-	c.Reject(sp, RetConst(0, "true"), "min"+pnT+"($r.seen) > $0")
-	c.Reject(sp, RetConst(0, "true"), "contains"+pnT+"($r.seen,$0)")
+	c.Reject(sp, RetConst(0, "true"), "min"+qaPnT+"($r.seen) > $0")
+	c.Reject(sp, RetConst(0, "true"), "contains"+qaPnT+"($r.seen,$0)")
 
 	// ---- who changes seen, and how
 	c.Writers("quic.ackState.seen", recv, A+"handleAck")
@@ -51,13 +51,13 @@ func c25(c *Ctx) {
 	c.Has(recv, add.ArgIs(0, "&$r.seen").ArgIs(1, "$2").ArgIs(2, "($2+1)"))
 	c.Count(recv, add, 1, 1)
 	rm := Calls(rs + "removeranges[quic.packetNumber]")
-	c.Guard(recv, rm, "numRanges"+pnT+"($r.seen) > 8")
-	c.Has(recv, rm.ArgIs(1, "0").ArgIs(2, "(numRanges"+pnT+"($r.seen)-8)"))
+	c.Guard(recv, rm, "numRanges"+qaPnT+"($r.seen) > 8")
+	c.Has(recv, rm.ArgIs(1, "0").ArgIs(2, "(numRanges"+qaPnT+"($r.seen)-8)"))
 	c.Before(recv, add, rm)
 	c.Count(recv, Calls(rs+"sub[quic.packetNumber]"), 0, 0)
 	ha := A + "handleAck"
 	sub := Calls(rs + "sub[quic.packetNumber]")
-	c.Has(ha, sub.ArgIs(0, "&$r.seen").ArgIs(1, "0").ArgIs(2, "rangeContaining"+pnT+"($r.seen,$0).start"))
+	c.Has(ha, sub.ArgIs(0, "&$r.seen").ArgIs(1, "0").ArgIs(2, "rangeContaining"+qaPnT+"($r.seen,$0).start"))
 	c.Count(ha, sub, 1, 1)
 	c.Count(ha, Union(add, rm), 0, 0)
 	hal := "(*quic.Conn).handleAckOrLoss"
@@ -65,24 +65,24 @@ func c25(c *Ctx) {
 	c.Guard(hal, Calls(ha), "$2 == @quic.packetAcked")
 	c.Has(hal, Calls(ha).ArgIs(0, "&$r.acks[$0]").ArgIs(1, "nextInt($1)"))
 	wa := "(*quic.packetWriter).appendAckFrame"
-	c.Has(wa, Calls("(*quic.sentPacket).appendInt").ArgIs(1, "max"+pnT+"($0)"))
+	c.Has(wa, Calls("(*quic.sentPacket).appendInt").ArgIs(1, "max"+qaPnT+"($0)"))
 
 	// ---- ACK frames are built from the seen set
 	caf := "(*quic.Conn).appendAckFrame"
 	c.Has(caf, Calls(wa).ArgIs(1, "acksToSend(&$r.acks[$1],$0)#0"))
 	c.Callers(wa, caf, "(quic.debugFrameAck).write")
-	c25results(c, A+"acksToSend", 0, "nil", "$r.seen")
-	c25ackNumbers(c, wa)
+	qaC25results(c, A+"acksToSend", 0, "nil", "$r.seen")
+	qaC25ackNumbers(c, wa)
 	c.Reject(wa, Calls("internal/quic/quicwire.AppendVarint"), "len($0) == 0")
 
 	// ---- ACKs from the peer
 	rar := "(*quic.lossState).receiveAckRange"
-	effects := Union(RetOK(), Stores("quic.sentPacket.state"), Calls("(*quic.ccReno).packetAcked"), CallsParam_quica(5))
+	effects := Union(RetOK(), Stores("quic.sentPacket.state"), Calls("(*quic.ccReno).packetAcked"), QaCallsParam(5))
 	c.Reject(rar, effects, "$4 > end(&$r.spaces[$1].sentPacketList)")
 	pv, _ := c.P.ConstInt("quic.errProtocolViolation")
 	code := Stores("quic.localTransportError.code").StoredIs(fmt.Sprint(pv))
-	c.Has(rar, c.Under_quica(code, "$4 > end(&$r.spaces[$1].sentPacketList)"))
-	c25unsent(c, rar, pv)
+	c.Has(rar, c.QaUnder(code, "$4 > end(&$r.spaces[$1].sentPacketList)"))
+	qaC25unsent(c, rar, pv)
 	sk := "(*quic.lossState).skipNumber"
 	us, _ := c.P.ConstInt("quic.sentPacketUnsent")
 	c.Has(sk, Stores("quic.sentPacket.state").StoredIs(fmt.Sprint(us)))
@@ -91,12 +91,12 @@ func c25(c *Ctx) {
 	c.Callers(rar, "(*quic.Conn).handleAckFrame")
 	cl := "(*quic.Conn).handleAckFrame$1"
 	c.CallAfterIncl(cl, c.Edge("receiveAckRange(&^c.loss,^now,^space,$0,$1,$2,closure:handleAckOrLoss$bound) != nil"), "(*quic.Conn).abort")
-	c25callbackRange(c, "quic.consumeAckFrame")
+	qaC25callbackRange(c, "quic.consumeAckFrame")
 }
 
-// c25guard: the handleFrames and receive calls of fn are dominated by
+// qaC25guard: the handleFrames and receive calls of fn are dominated by
 // shouldProcess(...) == true on the ackState and packet number given to receive.
-func c25guard(c *Ctx, fnName, sp, hf, recv string) {
+func qaC25guard(c *Ctx, fnName, sp, hf, recv string) {
 	fn := c.MustFn(fnName)
 	if fn == nil {
 		return
@@ -128,8 +128,8 @@ func c25guard(c *Ctx, fnName, sp, hf, recv string) {
 	c.OK("guard-before", construct, "2 sites")
 }
 
-// c25results: result idx of every return of fnName renders as one of allowed.
-func c25results(c *Ctx, fnName string, idx int, allowed ...string) {
+// qaC25results: result idx of every return of fnName renders as one of allowed.
+func qaC25results(c *Ctx, fnName string, idx int, allowed ...string) {
 	fn := c.MustFn(fnName)
 	if fn == nil {
 		return
@@ -154,30 +154,30 @@ func c25results(c *Ctx, fnName string, idx int, allowed ...string) {
 	c.Check(seen[allowed[len(allowed)-1]], "result-from", construct, fn.Pos(), fmt.Sprintf("%d returns", len(rets)), "never returns "+allowed[len(allowed)-1])
 }
 
-var phiName = regexp.MustCompile(`φ[A-Za-z_0-9]+`)
+var qaPhiName = regexp.MustCompile(`φ[A-Za-z_0-9]+`)
 
-// c25ackNumbers: the varints written by packetWriter.appendAckFrame are, in
+// qaC25ackNumbers: the varints written by packetWriter.appendAckFrame are, in
 // linear normal form and modulo the loop index, exactly the RFC 9000 19.3
 // numbers of the range set parameter.
-func c25ackNumbers(c *Ctx, wa string) {
+func qaC25ackNumbers(c *Ctx, wa string) {
 	fn := c.MustFn(wa)
 	if fn == nil {
 		return
 	}
 	construct := wa + ": numbers written are largest, delay, first-range, gap, range-length of the set (and ECN counts)"
 	want := map[string]string{
-		"max" + pnT + "($0)":                 "largest acknowledged",
-		"$1":                                 "ack delay",
-		"size" + pnT + "($0[(len($0)-1)])-1": "first range = size-1 of the highest range",
-		"$0[(φ+1)].start-$0[φ].end-1":        "gap = next.start - this.end - 1",
-		"size" + pnT + "($0[φ])-1":           "range length = size-1",
-		"$2.t0":                              "ECT0 count",
-		"$2.t1":                              "ECT1 count",
-		"$2.ce":                              "CE count",
+		"max" + qaPnT + "($0)":                 "largest acknowledged",
+		"$1":                                   "ack delay",
+		"size" + qaPnT + "($0[(len($0)-1)])-1": "first range = size-1 of the highest range",
+		"$0[(φ+1)].start-$0[φ].end-1":          "gap = next.start - this.end - 1",
+		"size" + qaPnT + "($0[φ])-1":           "range length = size-1",
+		"$2.t0":                                "ECT0 count",
+		"$2.t1":                                "ECT1 count",
+		"$2.ce":                                "CE count",
 	}
 	got := map[string]bool{}
 	for _, in := range Calls("internal/quic/quicwire.AppendVarint").F(c.P, fn) {
-		l := phiName.ReplaceAllString(Linearize(in.(*ssa.Call).Call.Args[1]).String(), "φ")
+		l := qaPhiName.ReplaceAllString(Linearize(in.(*ssa.Call).Call.Args[1]).String(), "φ")
 		if _, ok := want[l]; !ok {
 			c.Fail("codec-values", construct, in.Pos(), "writes `"+l+"`, which is none of the ACK frame fields derived from the acknowledged set")
 			return
@@ -194,10 +194,10 @@ func c25ackNumbers(c *Ctx, wa string) {
 	c.Check(len(missing) == 0, "codec-values", construct, fn.Pos(), fmt.Sprintf("%d fields", len(got)), "not written: "+strings.Join(missing, "; "))
 }
 
-// c25unsent: receiveAckRange tests the state of the packet it is about to
+// qaC25unsent: receiveAckRange tests the state of the packet it is about to
 // mark against sentPacketUnsent, and on equality returns PROTOCOL_VIOLATION
 // without any state change.
-func c25unsent(c *Ctx, rar string, pv int64) {
+func qaC25unsent(c *Ctx, rar string, pv int64) {
 	fn := c.MustFn(rar)
 	if fn == nil {
 		return
@@ -213,16 +213,16 @@ func c25unsent(c *Ctx, rar string, pv int64) {
 		c.Undecided("reject-before", construct, "no store of sentPacketAcked found")
 		return
 	}
-	tests := c.P.FieldTests(fn, "quic.sentPacket.state", us)
+	tests := c.P.QaFieldTests(fn, "quic.sentPacket.state", us)
 	for _, st := range stores {
-		obj := ObjOfFieldStore(st)
+		obj := QaObjOfFieldStore(st)
 		ok := false
 		for _, t := range tests {
 			if t.Obj != obj || !t.If.Block().Dominates(st.Block()) {
 				continue
 			}
-			from := FirstOf("packet.state == sentPacketUnsent", t.EqSucc)
-			bad := Union(RetOK(), Stores("quic.sentPacket.state"), Calls("(*quic.ccReno).packetAcked"), CallsParam_quica(5))
+			from := QaFirstOf("packet.state == sentPacketUnsent", t.EqSucc)
+			bad := Union(RetOK(), Stores("quic.sentPacket.state"), Calls("(*quic.ccReno).packetAcked"), QaCallsParam(5))
 			code := Stores("quic.localTransportError.code").StoredIs(fmt.Sprint(pv))
 			if c.NeverAfter(rar, from, bad, true) && c.PassThroughIncl(rar, from, code) {
 				ok = true
@@ -236,15 +236,15 @@ func c25unsent(c *Ctx, rar string, pv int64) {
 	c.OK("reject-before", construct, fmt.Sprintf("%d store(s)", len(stores)))
 }
 
-// c25callbackRange: consumeAckFrame invokes its callback only with
+// qaC25callbackRange: consumeAckFrame invokes its callback only with
 // 0 <= start and start < end.
-func c25callbackRange(c *Ctx, fnName string) {
+func qaC25callbackRange(c *Ctx, fnName string) {
 	fn := c.MustFn(fnName)
 	if fn == nil {
 		return
 	}
 	construct := fnName + ": range callback only under 0 <= start < end"
-	calls := CallsParam_quica(1).F(c.P, fn)
+	calls := QaCallsParam(1).F(c.P, fn)
 	if len(calls) == 0 {
 		c.Undecided("guard-before", construct, "callback call not found")
 		return
@@ -253,9 +253,9 @@ func c25callbackRange(c *Ctx, fnName string) {
 		args := in.(*ssa.Call).Call.Args
 		start, end := Linearize(args[1]), Linearize(args[2])
 		zero := Lin{Coef: map[string]int64{}}
-		nonneg := Atom{Kind: LE, L: LinSub(zero, start, 0)} // -start <= 0
-		less := Atom{Kind: LE, L: LinSub(start, end, 1)}    // start - end + 1 <= 0
-		if !FactsInclude(in, nonneg, false) || !FactsInclude(in, less, false) {
+		nonneg := Atom{Kind: LE, L: QaLinSub(zero, start, 0)} // -start <= 0
+		less := Atom{Kind: LE, L: QaLinSub(start, end, 1)}    // start - end + 1 <= 0
+		if !QaFactsInclude(in, nonneg, false) || !QaFactsInclude(in, less, false) {
 			c.Fail("guard-before", construct, in.Pos(), "callback `"+DescribeInstr(in)+"` is not dominated by tests establishing "+nonneg.String()+" and "+less.String())
 			return
 		}
